@@ -182,6 +182,9 @@ func (c *runCtx) oracleSig(assertion, sig string, ok bool, detail string) {
 		if c.independent && len(ops) > 0 { // every op is a self-contained case: the last op is the witness
 			ops = ops[len(ops)-1:]
 		}
+		if len(detail) > 900 {
+			detail = detail[:900] + "…"
+		}
 		c.failures = append(c.failures, oracleFailure{Prop: c.prop, Assertion: assertion, Detail: detail, Seq: c.nSeq, Ops: ops})
 	}
 }
